@@ -23,6 +23,7 @@ from liquid2.builtin import parse_primitive
 from liquid2.builtin import parse_string_or_identifier
 from liquid2.builtin import string_or_identifier_str
 from liquid2.exceptions import LiquidSyntaxError
+from liquid2.exceptions import LiquidTypeError
 from liquid2.exceptions import TemplateNotFoundError
 
 from .for_tag import ForLoop
@@ -112,10 +113,18 @@ class RenderNode(Node):
             key = self.alias or template.name.split(".")[0]
 
             if self.loop and isinstance(val, Sequence) and not isinstance(val, str):
+                try:
+                    length = len(val)
+                except OverflowError as err:
+                    # A range longer than sys.maxsize.
+                    raise LiquidTypeError(
+                        "range is too large", token=self.token
+                    ) from err
+
                 forloop = ForLoop(
                     name=key,
                     it=iter(val),
-                    length=len(val),
+                    length=length,
                     parentloop=context.env.undefined("parentloop", token=self.token),
                 )
 
@@ -137,7 +146,7 @@ class RenderNode(Node):
                     # `item_ctx` carries the iterations of loops enclosing this
                     # tag. Count this loop too, for loops nested in the partial
                     # template.
-                    with item_ctx.carry_loop(len(val)):
+                    with item_ctx.carry_loop(length):
                         character_count += template.render_with_context(
                             item_ctx, buffer, partial=True, block_scope=True
                         )
@@ -191,10 +200,18 @@ class RenderNode(Node):
             key = self.alias or template.name.split(".")[0]
 
             if self.loop and isinstance(val, Sequence) and not isinstance(val, str):
+                try:
+                    length = len(val)
+                except OverflowError as err:
+                    # A range longer than sys.maxsize.
+                    raise LiquidTypeError(
+                        "range is too large", token=self.token
+                    ) from err
+
                 forloop = ForLoop(
                     name=key,
                     it=iter(val),
-                    length=len(val),
+                    length=length,
                     parentloop=context.env.undefined("parentloop", token=self.token),
                 )
 
@@ -216,7 +233,7 @@ class RenderNode(Node):
                     # `item_ctx` carries the iterations of loops enclosing this
                     # tag. Count this loop too, for loops nested in the partial
                     # template.
-                    with item_ctx.carry_loop(len(val)):
+                    with item_ctx.carry_loop(length):
                         character_count += await template.render_with_context_async(
                             item_ctx, buffer, partial=True, block_scope=True
                         )
